@@ -253,19 +253,19 @@ func termFromModel(s *Sx, t types.Type) (*Term, error) {
 	case *types.Pointer:
 		ps := SortOf(t)
 		if !s.IsL {
-			if strings.HasPrefix(s.Atom, "nil:") {
+			if strings.HasPrefix(s.Atom, "nil!") {
 				return PtrNil(ps), nil
 			}
 			return nil, fmt.Errorf("bad pointer value %s", s)
 		}
-		if len(s.List) == 2 && strings.HasPrefix(s.List[0].Atom, "ref:") {
+		if len(s.List) == 2 && strings.HasPrefix(s.List[0].Atom, "ref!") {
 			v, err := termFromModel(s.List[1], u.Elem())
 			if err != nil {
 				return nil, err
 			}
 			return PtrRef(ps, v), nil
 		}
-		if len(s.List) == 3 && s.List[0].Atom == "as" && strings.HasPrefix(s.List[1].Atom, "nil:") {
+		if len(s.List) == 3 && s.List[0].Atom == "as" && strings.HasPrefix(s.List[1].Atom, "nil!") {
 			return PtrNil(ps), nil
 		}
 	}
